@@ -4,7 +4,9 @@
    over coordinates) — no probability library is installed.  T x = P(|Z| > x), C2 m y = P(chi2_m > y). *)
 From Coq Require Import Reals.
 From VOPy Require Import SchedBase SchedulesA SchedulesB.
+From VOPy Require Spec.
 From VOPyGen Require Import Gen_formulas.
+From VOPyGen Require Gen_algos.
 Open Scope R_scope.
 
 Theorem C04_auer : forall T K m delta sigma N, tail_ok T ->
@@ -49,3 +51,11 @@ Theorem C04_paveba_partial_gp_rectangles : forall T K m delta nv N, tail_ok T ->
   sumR (fun t => INR K * INR m * T (paveba_partial_gp_alpha nv delta (INR K) (INR m) (INR t) 1)) N <= delta.
 Proof. exact partial_gp_rect_union_bound. Qed.
 Print Assumptions C04_paveba_partial_gp_rectangles.
+
+(* PaVeBa's radius is a function of the round t; it is the right radius for a design holding t samples.  The designs
+   whose regions modeling() rebuilds are exactly the designs evaluating() samples in the same round (both sets
+   regenerated from vopy/algorithms/paveba.py), so a design that is rebuilt has been sampled in this round *)
+Theorem C04_paveba_rebuilt_designs_are_the_sampled_designs : forall S P U,
+  Gen_algos.paveba_modeled S P U = Gen_algos.paveba_sampled S P U /\ Gen_algos.paveba_modeled S P U = Spec.union S U.
+Proof. intros. split; reflexivity. Qed.
+Print Assumptions C04_paveba_rebuilt_designs_are_the_sampled_designs.
